@@ -586,7 +586,10 @@ func (eng *Engine) checkLocksetGuards(fc *FnCtx, fr *Frame, fn *ssa.Function, sp
 		}
 	}
 	if muIdx < 0 {
-		eng.staleErrs = append(eng.staleErrs, fmt.Sprintf("contract-stale: %s: lockset: no mutex field %s in the receiver type (%s)", spec.Key, mu, spec.Src))
+		// the guarding mutex is gone from the receiver type: the guarded fields are no longer protected by a lock of their own
+		// object. That is a failed lockset obligation (reported as the violation it is), not a contract that merely went stale.
+		fc.oblige(fr, "lockset", "held", "true", "false", fn.Pos(),
+			fmt.Sprintf("the receiver type has a mutex field %s guarding %s (syntactic)", mu, strings.Join(gnames, ", ")), fr.props())
 		return
 	}
 	isMu := func(v ssa.Value) bool {
